@@ -1185,7 +1185,7 @@ const COLORS: [RGBA; 16] = [
     RGBA::new(255, 255, 255, 255),
 ];
 
-fn sgr_color<'a>(mut cmds: impl Iterator<Item = &'a [u8]>) -> Option<RGBA> {
+fn sgr_color<'a>(mut cmds: impl Iterator<Item = &'a [u8]>, colon_form: bool) -> Option<RGBA> {
     match number_decode(cmds.next()?)? {
         5 => {
             // color from 256 color palette
@@ -1210,8 +1210,17 @@ fn sgr_color<'a>(mut cmds: impl Iterator<Item = &'a [u8]>) -> Option<RGBA> {
         2 => {
             // true color
             //
-            // It can contain either three or four components
-            // in the case of four first component is ignored
+            // Semicolon separated form always has three components and everything
+            // after them is an independent SGR parameter
+            if !colon_form {
+                let clamp = |value: usize| value.min(255) as u8;
+                let r = cmds.next().and_then(number_decode)?;
+                let g = cmds.next().and_then(number_decode)?;
+                let b = cmds.next().and_then(number_decode)?;
+                return Some(RGBA::new(clamp(r), clamp(g), clamp(b), 255));
+            }
+            // Colon separated form can contain either three or four components
+            // in the case of four first component (color space) is ignored
             match [
                 cmds.next().and_then(number_decode),
                 cmds.next().and_then(number_decode),
@@ -1240,9 +1249,9 @@ fn sgr_face(data: &[u8]) -> FaceModify {
         let args_empty = args.size_hint().0 == 0;
         let mut sgr_color_thunk = || {
             if args_empty {
-                sgr_color(&mut groups)
+                sgr_color(&mut groups, false)
             } else {
-                sgr_color(&mut args)
+                sgr_color(&mut args, true)
             }
         };
         match cmd {
